@@ -14,6 +14,10 @@ Error model used by the float oracles (u = 2**-53, eps = 2u, M = max(|a|,|b|), u
     index is within 0.5 + tau of the exact grid parameter t(x') (Fraction arithmetic for `uni`, math.acos of an exactly
     computed, outward-rounded argument for `cheb`).  Ties (t = k + 1/2) and points within 2 ulp(M) of a cell boundary or
     of the box boundary therefore admit both neighbours.
+  * the model is relative to the box (ulp(M), cell widths), so it holds unchanged for boxes near the ends of the double range
+    (sub-check extreme_boxes, the 8 extra boxes of roundtrip_all_n).  No oracle forms a quantity that can overflow there: the
+    node oracles work on the box and the nodes scaled by an exact power of two to M in [0.5, 1) (norm_exp), the point and
+    scaling oracles on exact rationals (fractions.Fraction), the generators clamp every point to the finite doubles.
 """
 import math
 from fractions import Fraction as Fr
@@ -56,7 +60,15 @@ RULE = ("Boxes are built by construction from (magnitude 1e-8..1e8, offset class
         "int32 array (d == 1: also the scalar spellings), each result overwritten (5 ways) or kept, calls for another shape "
         "(reversed / one more dimension / n_0 + 1) in between, then the round trip over grid_flat(n) on a generated box and "
         "func_gets_full (before / after / both; m as list / array / None) on <= 200 nodes; non-trivial = d >= 2, min n >= 2, "
-        ">= 1 array really changed.")
+        ">= 1 array really changed. "
+        "extreme_boxes: the cases of roundtrip (x3), points (x2), scale (x2), forms, repeat_calls, single_batch, index_dtypes "
+        "with every box (built and widened as above) multiplied by an exact power of two to one of the levels top (M = "
+        "max(|a|,|b|) in [4.5e307, 9e307): every offset class, widths up to 1.8e308), toptop (M in [9e307, 1.8e308) where b - a "
+        "(uni) / |a| + |b| (cheb) is still finite), high (M = 2**500..2**1020), low / bottom (the smallest non-zero of |a|, |b|, "
+        "b - a in 2**-990..2**-500 / in [7.5e-301, 1.5e-300)); custom limits: M <= 2**1000; points of all classes, clamped to the "
+        "finite doubles (so 'out' / 'far' points reach +-1.8e308); always non-trivial. roundtrip_all_n additionally enumerates "
+        "every n on 8 fixed boxes of these magnitudes ([-8e307, 8e307], [0, 1.7e308], [-1.7e308, 0], [6.1e307, 8.9e307], "
+        "[-3.3e305, 1e305], [-3e-300, 3e-300], [0, 1e-300], [1e-300, 1.001e-300]).")
 TOLERANCES = ("round trip: exact; node in box / end node: 8 (uni), 16 (cheb) ulp(M); node position vs independent float "
               "reference: 16 / 32 ulp(M); arbitrary point: exists x' within 2 ulp(M) with |I - t(x')| <= 0.5 + 4 eps (n-1) "
               "(uni, Fraction) / 0.5 + 8 eps (n-1) with 8 eps slack on the arccos argument (cheb); poi_scale: 4 eps |r| "
@@ -70,7 +82,10 @@ TOLERANCES = ("round trip: exact; node in box / end node: 8 (uni), 16 (cheb) ulp
               "4 ulp(M) (cheb nodes), equal or both admissible at a tie (cheb indices); spelled options vs plain lists: identical bits; "
               "handed_out / grid_flat_history: second call vs first call before the overwrite: identical bytes (same routine, equal "
               "arguments of the same shapes and dtypes, same process), np.shares_memory is False; func_gets_full vs func_get_full on "
-              "the nodes of the reference flat grid: 1e-9 (1 + max|Z|) (the two are the same computation; a wrong order is O(1))")
+              "the nodes of the reference flat grid: 1e-9 (1 + max|Z|) (the two are the same computation; a wrong order is O(1)); "
+              "extreme_boxes: the same tolerances (they are relative to ulp(M) and the cell width, evaluated after an exact "
+              "power-of-two scaling of box and nodes to M in [0.5, 1), resp. in exact rational arithmetic); poi_scale additionally "
+              "2**-1072 / (b - a) for intermediates rounded in the subnormal range (< 1e-15 of the target interval for b - a >= 7.5e-301)")
 ASSUMPTIONS = [
     "resolution precondition (b-a)/(n-1) >= 2**12 ulp(max(|a|,|b|)); for kind='cheb' additionally "
     "(b-a)/2*(1-cos(pi/(n-1))) >= 2**12 ulp(max(|a|,|b|)) (smallest Chebyshev cell); built in by widening the box",
@@ -84,6 +99,13 @@ ASSUMPTIONS = [
     "IndexError in poi_to_ind) on the unmodified tree: there only 'batch accepted <=> every single point accepted' is asserted",
     "grid_flat returns [samples, d] (what func_full passes to ind_to_poi), not the [d, samples] of its docstring",
     "cdf_getter: finite 1-D sample, finite query points",
+    "magnitudes: max(|a|,|b|) from 7.5e-301 up to the largest finite doubles for which the quantities the documented formulas "
+    "are made of are finite - b - a for kind='uni' (maps and scaling), |a| + |b| (i.e. b - a and b + a) for kind='cheb' - and "
+    "widths b - a >= 7.5e-301.  Observed on the unmodified tree and therefore NOT asserted: kind='cheb' with b + a overflowing "
+    "(e.g. [1e308, 1.7e308]: ind_to_poi returns inf, poi_scale -1 for every point); kind='cheb' with b - a < 1.2e-308 (2 / (b - a) "
+    "is inf: poi_scale returns nan / +-1, the round trip fails); custom limits when |x|, |a|, |b| times |a_new|, |b_new|, "
+    "|a_new - b_new| exceeds 1.8e308 (the formula x (a_new - b_new) + a b_new - b a_new overflows: nan or a clipped value): "
+    "custom limits are generated for max(|a|,|b|) <= 2**1000 only.  The uniform grid has no such restriction",
     "index_dtypes: every index / size is exactly representable in the dtype it is passed in; float index arrays are float64 "
     "(float32 / float16 index arrays are outside the documented 'multi-indices' and lose precision on the Chebyshev grid); "
     "NumPy integer scalars as n are asserted for ind_to_poi only (poi_to_ind raises IndexError on them for a single point or "
@@ -99,11 +121,13 @@ ASSUMPTIONS = [
 ]
 
 EPS = float(np.finfo(float).eps)
+DBL_MAX = float(np.finfo(float).max)
 RES = 4096.0
 HALF = Fr(1, 2)
 # (STRICT_N_LENGTH is gone: "poi_to_ind rejects every n of a wrong length" was a false alarm for d == 1, where a longer list is
 #  broadcast; length_verdict() now states per call shape what is asserted and what is only observed.)
 TINY = Fr(1, 10 ** 300)
+SUBN = Fr(1, 2 ** 1072)                                     # 4 x the spacing of the subnormal doubles
 
 
 # ------------------------------------------------------------------------------------------- helpers
@@ -116,12 +140,30 @@ def scale_of(a, b):
     return max(abs(a), abs(b))
 
 
+def fin(x):
+    """x clamped to the finite doubles (generators only: a point of a case is always a finite number)."""
+    return max(-DBL_MAX, min(DBL_MAX, float(x)))
+
+
 def shift(x, k):
-    """x moved by k units in the last place."""
+    """x moved by k units in the last place (saturating at the largest finite double)."""
     x = float(x)
     for _ in range(abs(k)):
         x = math.nextafter(x, math.inf if k > 0 else -math.inf)
-    return x
+    return fin(x)
+
+
+def norm_exp(a, b):
+    """e with max(|a|, |b|) * 2**-e in [0.5, 1).  The float oracles on nodes are evaluated on the box and the nodes scaled by
+    2**-e: an exact operation (only a value below 2**-1022 * 2**e, 2**-969 of the box scale, is rounded, by < 2**-1074), so
+    for a box of ordinary magnitude nothing changes, and for a box near the ends of the double range no reference, slack or
+    bound of the oracle can overflow or fall into the subnormals; ulp(M) becomes 2**-53 exactly."""
+    return math.frexp(scale_of(a, b))[1]
+
+
+def down(x, e):
+    """x * 2**-e for a float or an array."""
+    return np.ldexp(x, -e) if isinstance(x, np.ndarray) else math.ldexp(float(x), -e)
 
 
 def need_width(a, b, n, kind):
@@ -149,14 +191,18 @@ def require_pre(a, b, n, kind):
 
 
 def kappa_of(a, b):
+    e = norm_exp(a, b)
+    a, b = down(a, e), down(b, e)
     return abs(a + b) / (b - a)
 
 
 def param_point(kind, a, b, n, t):
     """Float point with grid parameter ~t (used by generators only)."""
+    e = norm_exp(a, b)                                    # scaled: t * (b - a) and a + b must not overflow for a huge box
+    a, b = down(a, e), down(b, e)
     if kind == "uni":
-        return a + t * (b - a) / (n - 1)
-    return (a + b) / 2 + (b - a) / 2 * math.cos(math.pi * t / (n - 1))
+        return fin(np.ldexp(a + t * (b - a) / (n - 1), e))
+    return fin(np.ldexp((a + b) / 2 + (b - a) / 2 * math.cos(math.pi * t / (n - 1)), e))
 
 
 def pass_opt(vals, form, as_float=False):
@@ -246,16 +292,66 @@ def n_strategy(tier):
     return st.one_of(st.integers(2, 9), st.integers(2, 64), st.integers(2, nmax), st.sampled_from([2, 3, 5, 9, 17, 33, 65, 129]))
 
 
+# Boxes near the ends of the double range.  A box of ordinary magnitude (built and widened as above) is multiplied by 2**E -
+# exactly, so the resolution precondition carries over as it is - to one of these levels (M = max(|a|, |b|), w = b - a):
+#   top     M in [2**1022, 2**1023) = [4.5e307, 9e307): b - a <= 1.8e308 and a + b are both finite for every offset class;
+#   toptop  M in [2**1023, 2**1024) = [9e307, 1.8e308), only where what the formulas of the kind need is still finite: b - a for
+#           the uniform grid (every box that does not contain 0 in its interior, e.g. [1e308, 1.7e308], and [-a, b] with
+#           a + b <= 1.8e308), |a| + |b| for the Chebyshev grid ([0, 1.7e308], [-4e307, 1.3e308]; the library forms b + a as
+#           well as b - a and returns inf when it overflows - outside what it delivers, see ASSUMPTIONS);
+#   high    M = 2**500 .. 2**1020 (3e150 .. 1e307);
+#   low     the smallest non-zero of |a|, |b|, w in 2**-990 .. 2**-500 (1e-298 .. 3e-151);
+#   bottom  the smallest non-zero of |a|, |b|, w in [2**-997, 2**-996) = [7.5e-301, 1.5e-300).
+# Custom limits (|a_new|, |b_new| <= 2e3): M <= 2**1000 (1e301), because the library evaluates x (a_new - b_new) + a b_new -
+# b a_new, whose terms must stay finite (see ASSUMPTIONS).
+LEVELS = {"uni": ["top", "top", "toptop", "high", "low", "bottom"], "cheb": ["top", "top", "toptop", "high", "low", "bottom"],
+          "custom": ["ctop", "chigh", "low", "bottom"]}
+
+
 @st.composite
-def boxes_with_n(draw, tier, kind, d, same):
-    """d boxes with grid sizes; `same` => one box replicated (scalar option forms)."""
+def to_extreme(draw, kind, a, b):
+    """(level, a * 2**E, b * 2**E) for a drawn level of the kind."""
+    lv = draw(st.sampled_from(LEVELS["uni" if kind == "uni" else ("cheb" if kind == "cheb" else "custom")]))
+    ex = math.frexp(scale_of(a, b))[1]
+    if lv == "toptop" and not (b - a if kind == "uni" else abs(a) + abs(b)) < math.ldexp(1.0, ex):
+        lv = "top"
+    exs = math.frexp(min(v for v in (abs(a), abs(b), b - a) if v > 0.0))[1]
+    if lv == "top":
+        E = 1023 - ex
+    elif lv == "toptop":
+        E = 1024 - ex
+    elif lv == "high":
+        E = draw(st.integers(500, 1020)) - ex
+    elif lv == "ctop":
+        E = 1000 - ex
+    elif lv == "chigh":
+        E = draw(st.integers(500, 1000)) - ex
+    elif lv == "low":
+        E = -draw(st.integers(500, 990)) - exs
+    else:
+        E = -996 - exs
+    A, B = math.ldexp(a, E), math.ldexp(b, E)
+    if not (math.ldexp(A, -E) == a and math.ldexp(B, -E) == b and math.isfinite(B - A) and A < B
+            and (kind == "uni" or math.isfinite(A + B))):
+        raise AssertionError(f"inexact scaling of the box {a!r} {b!r} by 2**{E}")
+    return lv, A, B
+
+
+@st.composite
+def boxes_with_n(draw, tier, kind, d, same, extreme=False):
+    """d boxes with grid sizes; `same` => one box replicated (scalar option forms); `extreme` => scaled by to_extreme."""
     out = []
     for k in range(1 if same else d):
         cls, a, b = draw(raw_boxes())
         n = draw(n_strategy(tier))
-        a, b0 = a, b
+        b0 = b
         a, b = widen(a, b, n, kind)
-        out.append((cls + ("+widened" if b != b0 else ""), a, b, n))
+        if b != b0:
+            cls += "+widened"
+        if extreme:
+            lv, a, b = draw(to_extreme(kind, a, b))
+            cls += "@" + lv
+        out.append((cls, a, b, n))
     if same:
         out = out * d
     return [o[0] for o in out], [o[1] for o in out], [o[2] for o in out], [o[3] for o in out]
@@ -264,11 +360,11 @@ def boxes_with_n(draw, tier, kind, d, same):
 # ------------------------------------------------------------------------------------------- round trip over all indices
 
 @st.composite
-def roundtrip_cases(draw, tier):
+def roundtrip_cases(draw, tier, extreme=False):
     kind = draw(st.sampled_from(["uni", "cheb"]))
     d = draw(st.integers(1, 4))
     form = draw(st.sampled_from(["list", "array", "scalar"]))
-    cls, a, b, n = draw(boxes_with_n(tier, kind, d, form == "scalar"))
+    cls, a, b, n = draw(boxes_with_n(tier, kind, d, form == "scalar", extreme))
     return {"kind": kind, "a": a, "b": b, "n": n, "form": form, "nfloat": draw(st.booleans()),
             "row": draw(st.integers(0, max(n) - 1)), "cls": cls}
 
@@ -288,22 +384,23 @@ def prop_roundtrip(case, ctx):
               got=repr(getattr(X, "shape", None)))
     ctx.check(bool(np.all(np.isfinite(X))), "ind_to_poi: non-finite node")
     for k in range(d):
-        M = scale_of(a[k], b[k])
-        u = ulp(M)
+        # everything below on the box and the nodes scaled by 2**-e to M in [0.5, 1) (exact, see norm_exp): u = ulp(M) = 2**-53
+        e = norm_exp(a[k], b[k])
+        ak, bk, xk = down(a[k], e), down(b[k], e), down(X[:n[k], k], e)
+        u = ulp(scale_of(ak, bk))
         slack = (8.0 if kind == "uni" else 16.0) * u
-        xk = X[:n[k], k]
-        first, last = (a[k], b[k]) if kind == "uni" else (b[k], a[k])
+        info = dict(kind=kind, dim=k, a=a[k], b=b[k], n=n[k], ulp_M=ulp(scale_of(a[k], b[k])))
+        first, last = (ak, bk) if kind == "uni" else (bk, ak)
         ctx.check(abs(xk[0] - first) <= slack, "index 0 is not mapped to the documented end of the box",
-                  kind=kind, dim=k, a=a[k], b=b[k], n=n[k], got=float(xk[0]), want=first)
+                  got=float(X[0, k]), want=a[k] if kind == "uni" else b[k], **info)
         ctx.check(abs(xk[-1] - last) <= slack, "index n-1 is not mapped to the documented end of the box",
-                  kind=kind, dim=k, a=a[k], b=b[k], n=n[k], got=float(xk[-1]), want=last)
-        j = int(np.argmax(np.maximum(a[k] - xk, xk - b[k])))
-        ctx.check(a[k] - slack <= xk[j] <= b[k] + slack, "node outside the box",
-                  kind=kind, dim=k, a=a[k], b=b[k], n=n[k], index=j, got=float(xk[j]))
-        ref, ktol = node_reference(kind, a[k], b[k], n[k])
+                  got=float(X[n[k] - 1, k]), want=b[k] if kind == "uni" else a[k], **info)
+        j = int(np.argmax(np.maximum(ak - xk, xk - bk)))
+        ctx.check(ak - slack <= xk[j] <= bk + slack, "node outside the box", index=j, got=float(X[j, k]), **info)
+        ref, ktol = node_reference(kind, ak, bk, n[k])
         j = int(np.argmax(np.abs(xk - ref)))
         ctx.check(abs(xk[j] - ref[j]) <= ktol * u, "node is not the grid node of its index",
-                  kind=kind, dim=k, a=a[k], b=b[k], n=n[k], index=j, got=float(xk[j]), ref=float(ref[j]), tol=ktol * u)
+                  index=j, got=float(X[j, k]), ref_scaled=float(ref[j]), got_scaled=float(xk[j]), scaled_by=f"2**-{e}", tol_ulp_M=ktol, **info)
 
     J = ctx.lib(teneva.poi_to_ind, X, aa, bb, nn, kind)
     ctx.check(is_int_array(J) and J.shape == (nmax, d), "poi_to_ind: result is not an int array [samples, d]",
@@ -334,8 +431,10 @@ def prop_roundtrip(case, ctx):
 
 
 def fixed_boxes():
-    """14 fixed boxes: magnitudes 1e-8, 1, 1e8 x offset classes, non-dyadic mantissas, both signs, a bound at zero."""
-    out = []
+    """14 fixed boxes: magnitudes 1e-8, 1, 1e8 x offset classes, non-dyadic mantissas, both signs, a bound at zero; and 8 boxes
+    at the ends of the double range (b - a and a + b finite: widths up to 1.7e308, bounds up to 8.9e307, down to 1e-300)."""
+    out = [(-8e307, 8e307), (0.0, 1.7e308), (-1.7e308, 0.0), (6.1e307, 8.9e307), (-3.3e305, 1.0e305),
+           (-3e-300, 3e-300), (0.0, 1e-300), (1e-300, 1.001e-300)]
     for s in (3.7e-8, 1.0, 7.3e7):
         out.append((-s, s))
         out.append((0.0, s))
@@ -368,7 +467,7 @@ def coords(draw, kind, a, b, n):
     cls = draw(st.sampled_from(POINT_CLASSES))
     pk = "uni" if kind == "uni" else "cheb"
     if cls == "in":
-        x = min(max(a + draw(st.floats(0.0, 1.0, allow_nan=False)) * (b - a), a), b)
+        x = min(max(a + draw(st.floats(0.0, 1.0, allow_nan=False)) * (b - a), a), b)       # b - a is finite, the factor <= 1
     elif cls == "node":
         x = shift(param_point(pk, a, b, n, float(draw(st.integers(0, n - 1)))), draw(st.integers(-3, 3)))
     elif cls == "mid":
@@ -377,18 +476,18 @@ def coords(draw, kind, a, b, n):
         x = shift(draw(st.sampled_from([a, b])), draw(st.integers(-3, 3)))
     elif cls == "out":
         g = draw(st.sampled_from([1e-9, 1e-3, 0.5, 1.0, 1e3]))
-        x = b + (b - a) * g if draw(st.booleans()) else a - (b - a) * g
+        x = fin(b + (b - a) * g if draw(st.booleans()) else a - (b - a) * g)             # saturates at +-DBL_MAX for a huge box
     else:
-        x = draw(st.sampled_from([-1.0, 1.0])) * draw(st.sampled_from([1e300, 1e6 * scale_of(a, b), 1e3]))
+        x = draw(st.sampled_from([-1.0, 1.0])) * fin(draw(st.sampled_from([1e300, 1e6 * scale_of(a, b), 1e3])))
     return cls, float(x)
 
 
 @st.composite
-def point_cases(draw, tier):
+def point_cases(draw, tier, extreme=False):
     kind = draw(st.sampled_from(["uni", "cheb"]))
     d = draw(st.integers(1, 4))
     form = draw(st.sampled_from(["list", "array", "scalar"]))
-    cls, a, b, n = draw(boxes_with_n(tier, kind, d, form == "scalar"))
+    cls, a, b, n = draw(boxes_with_n(tier, kind, d, form == "scalar", extreme))
     m = draw(st.integers(1, 6 if tier == "quick" else 12))
     X, C = [], []
     for _ in range(m):
@@ -447,11 +546,11 @@ def prop_points(case, ctx):
 # ------------------------------------------------------------------------------------------- poi_scale
 
 @st.composite
-def scale_cases(draw, tier):
+def scale_cases(draw, tier, extreme=False):
     kind = draw(st.sampled_from(["uni", "cheb", "custom"]))
     d = draw(st.integers(1, 4))
     form = draw(st.sampled_from(["list", "array", "scalar"]))
-    cls, a, b, n = draw(boxes_with_n(tier, kind, d, form == "scalar"))
+    cls, a, b, n = draw(boxes_with_n(tier, kind, d, form == "scalar", extreme))
     m = draw(st.integers(1, 6 if tier == "quick" else 12))
     X, C = [], []
     for _ in range(m):
@@ -504,17 +603,19 @@ def prop_scale(case, ctx):
         for k in range(d):
             x, got = X[i][k], float(S[i, k])
             A, B, XF = Fr(a[k]), Fr(b[k]), Fr(x)
+            # exact rational references (no magnitude can overflow them); SUBN / (B - A): an intermediate of the size of the
+            # box that falls below 2**-1022 (boxes near 1e-300) is rounded absolutely, by <= 2**-1075 per operation
             if kind == "uni":
                 ru = (XF - A) / (B - A)
-                tol = Fr(4 * EPS) * abs(ru) + TINY
+                tol = Fr(4 * EPS) * abs(ru) + TINY + SUBN / (B - A)
             elif kind == "cheb":
                 w = (B - A) / 2
                 ru = (XF - (A + B) / 2) / w
-                tol = Fr(ulp(scale_of(a[k], b[k]))) / w + Fr(4 * EPS) * abs(ru) + TINY
+                tol = Fr(ulp(scale_of(a[k], b[k]))) / w + Fr(4 * EPS) * abs(ru) + TINY + SUBN / (B - A)
             else:
                 ru = LO + (XF - A) / (B - A) * (HI - LO)
                 T = abs(XF) * (HI - LO) + abs(A * HI) + abs(B * LO)
-                tol = Fr(8 * EPS) * T / (B - A) + Fr(4 * EPS) * abs(ru) + TINY
+                tol = Fr(8 * EPS) * T / (B - A) + Fr(4 * EPS) * abs(ru) + TINY + SUBN / (B - A)
             info = dict(kind=kind, dim=k, a=a[k], b=b[k], x=x, got=got, lim=[lo, hi])
             ctx.check(math.isfinite(got) and lo <= got <= hi, "poi_scale: value outside the target interval", **info)
             rc = clampF(ru, LO, HI)
@@ -535,10 +636,10 @@ def prop_scale(case, ctx):
 # ------------------------------------------------------------------------------------------- option forms
 
 @st.composite
-def form_cases(draw, tier):
+def form_cases(draw, tier, extreme=False):
     kind = draw(st.sampled_from(["uni", "cheb", "custom"]))
     d = draw(st.integers(1, 4))
-    cls, a, b, n = draw(boxes_with_n(tier, kind, 1, True))
+    cls, a, b, n = draw(boxes_with_n(tier, kind, 1, True, extreme))
     a, b, n = a[0], b[0], n[0]
     m = draw(st.integers(1, 5))
     I = [[draw(st.integers(0, n - 1)) for _ in range(d)] for _ in range(m)]
@@ -929,12 +1030,12 @@ def spell_opt(vals, sp, npt, is_n):
 
 
 @st.composite
-def stack_cases(draw, tier):
+def stack_cases(draw, tier, extreme=False):
     kind = draw(st.sampled_from(["uni", "cheb", "custom"]))
     d = draw(st.integers(1, 4))
     sp = [draw(st.sampled_from(OPT_SPELL)) for _ in range(3)]
     same = any(x in ("scalar", "np_scalar") for x in sp)
-    cls, a, b, n = draw(boxes_with_n(tier, kind, d, same))
+    cls, a, b, n = draw(boxes_with_n(tier, kind, d, same, extreme))
     npt = [draw(st.sampled_from(np_scalar_types(v[0], k == 2))) for k, v in enumerate((a, b, n))]
     m = draw(st.integers(1, 5 if tier == "quick" else 9))
     X = [[draw(coords(kind, a[k], b[k], n[k]))[1] for k in range(d)] for _ in range(m)]
@@ -1183,7 +1284,7 @@ def size_spelling(draw, n, same):
 
 
 @st.composite
-def dtype_cases(draw, tier):
+def dtype_cases(draw, tier, extreme=False):
     wc = draw(st.sampled_from(["w8", "w8", "w16", "w16", "w32"]))
     kind = draw(st.sampled_from(["cheb", "uni"]))
     d = draw(st.integers(1, 3))
@@ -1197,6 +1298,9 @@ def dtype_cases(draw, tier):
         nk = draw(st.one_of(st.sampled_from(W_SIZES[wc]), st.integers(*W_RANGE[wc])))
         if pre:
             ak, bk = widen(ak, bk, nk, kind)
+        if extreme:
+            lv, ak, bk = draw(to_extreme(kind, ak, bk))
+            c += "@" + lv
         cls.append(c), a.append(ak), b.append(bk), n.append(nk)
     if same:
         cls, a, b, n = cls * d, a * d, b * d, n * d
@@ -1265,27 +1369,31 @@ def prop_dtypes(case, ctx):
 
     # the nodes of these indices (Python integer / float arithmetic, no array dtypes involved), the box and its ends
     for k in range(d):
-        u = U[k]
+        # on the box and the nodes scaled by 2**-e to M in [0.5, 1) (exact, see norm_exp): i * (b - a) cannot overflow
+        e = norm_exp(a[k], b[k])
+        ak, bk = down(a[k], e), down(b[k], e)
+        u = ulp(scale_of(ak, bk))
         ktol = 16.0 if kind == "uni" else 32.0
         slack = (8.0 if kind == "uni" else 16.0) * u
         nk = n[k]
-        mid, w = (a[k] + b[k]) / 2, (b[k] - a[k]) / 2
+        mid, w = (ak + bk) / 2, (bk - ak) / 2
         for r in range(m):
             i = int(I64[r, k])
             if r and i == int(I64[r - 1, k]):
                 continue
             if kind == "uni":
-                ref = a[k] + (i * (b[k] - a[k])) / (nk - 1)
+                ref = ak + (i * (bk - ak)) / (nk - 1)
             else:
                 ref = mid + w * math.sin(math.pi * (nk - 1 - 2 * i) / (2 * (nk - 1)))
-            x = float(X[r, k])
-            ctx.check(abs(x - ref) <= ktol * u, "node is not the grid node of its index", dim=k, index=i, got=x, ref=ref,
-                      tol=ktol * u, a=a[k], b=b[k], **info)
-            ctx.check(a[k] - slack <= x <= b[k] + slack, "node outside the box", dim=k, index=i, got=x, a=a[k], b=b[k], **info)
+            x = down(float(X[r, k]), e)
+            info_k = dict(dim=k, index=i, got=float(X[r, k]), a=a[k], b=b[k], scaled_by=f"2**-{e}")
+            ctx.check(abs(x - ref) <= ktol * u, "node is not the grid node of its index", got_scaled=x, ref_scaled=ref,
+                      tol_ulp_M=ktol, **info_k, **info)
+            ctx.check(ak - slack <= x <= bk + slack, "node outside the box", **info_k, **info)
             if i == 0 or i == nk - 1:
-                want = (a[k] if i == 0 else b[k]) if kind == "uni" else (b[k] if i == 0 else a[k])
-                ctx.check(abs(x - want) <= slack, "index 0 / n-1 is not mapped to the documented end of the box", dim=k,
-                          index=i, got=x, want=want, **info)
+                want = (ak if i == 0 else bk) if kind == "uni" else (bk if i == 0 else ak)
+                ctx.check(abs(x - want) <= slack, "index 0 / n-1 is not mapped to the documented end of the box",
+                          want_scaled=want, **info_k, **info)
     ctx.inner(int(m * d))
 
     # one sample: a row of the narrow array, or a list of NumPy scalars of that dtype
@@ -1648,6 +1756,114 @@ def prop_flat_history(case, ctx):
     ctx.nontrivial(d >= 2 and min(n) >= 2 and changed > 0)
 
 
+# ------------------------------------------------------------------------------------------- boxes at the ends of the double range
+#
+# "for all boxes with a < b per dimension (any magnitude and offset)": the sub-checks above draw magnitudes 1e-8 .. 1e8.  Here
+# the same cases and the same oracles for boxes whose bounds and widths reach the largest finite doubles for which b - a is
+# finite, and go down to 1e-300 (LEVELS / to_extreme).  A formula that is fine for an ordinary box may form an intermediate
+# that is (n-1) times the width, twice a bound, the square of something - and overflow (or underflow) while every node, every
+# point and the answer itself are perfectly representable.
+
+EXTREME = {
+    "roundtrip": (prop_roundtrip, roundtrip_cases),
+    "points": (prop_points, point_cases),
+    "scale": (prop_scale, scale_cases),
+    "forms": (prop_forms, form_cases),
+    "repeat_calls": (prop_repeat, form_cases),
+    "single_batch": (prop_stack, stack_cases),
+    "index_dtypes": (prop_dtypes, dtype_cases),
+}
+EXTREME_WEIGHTED = ["roundtrip"] * 3 + ["points"] * 2 + ["scale"] * 2 + ["forms", "repeat_calls", "single_batch", "index_dtypes"]
+
+
+@st.composite
+def extreme_cases(draw, tier):
+    which = draw(st.sampled_from(EXTREME_WEIGHTED))
+    return {"which": which, "case": draw(EXTREME[which][1](tier, extreme=True))}
+
+
+def prop_extreme(case, ctx):
+    ctx.label("extreme:" + case["which"])
+    inner = case["case"]
+    for c in inner.get("cls", []):
+        ctx.label("level:" + c.rpartition("@")[2])
+    EXTREME[case["which"]][0](inner, ctx)
+    ctx.nontrivial(True)
+
+
+# ------------------------------------------------------------------------------------------- the very edge of the double range
+# boxes whose centre, reciprocal width or products with custom limits are not representable although a, b and b - a are
+# (added by the harness owner after the extreme_boxes work: one formula was repaired in /repo, two are recorded as open findings)
+
+def edge_cases(tier, shard, nshards):
+    j = 0
+    boxes = [(1e308, 1.7e308), (-1.7e308, -1e308), (9.5e307, 1.79e308), (-1.79e308, -9.1e307), (8.99e307, 1.0e308)]
+    for (a, b) in boxes:
+        for n in (2, 3, 5, 8, 33):
+            if j % nshards == shard:
+                yield {"kind": "centre", "a": a, "b": b, "n": n}
+            j += 1
+    for (a, b, lim) in [(8e307, 8.5e307, [-5.0, 5.0]), (-8e307, 8e307, [-1.0, 1.0]), (1e305, 3e305, [0.0, 1000.0]), (-1.7e308, -1.6e308, [2.0, 3.0])]:
+        for t in (0.0, 0.25, 0.5, 1.0):
+            if j % nshards == shard:
+                yield {"kind": "custom", "a": a, "b": b, "lim": lim, "t": t}
+            j += 1
+    for (a, b) in [(1e-308, 2e-308), (0.0, 1e-308), (-5e-309, 5e-309), (3e-310, 9e-310)]:
+        for t in (0.2, 0.5, 0.8):
+            if j % nshards == shard:
+                yield {"kind": "narrow", "a": a, "b": b, "t": t}
+            j += 1
+
+
+def prop_edge(case, ctx):
+    a, b = case["a"], case["b"]
+    if case["kind"] == "centre":
+        # |a| + |b| is beyond the float range, a, b and b - a are not: Chebyshev nodes, scaling and the round trip (after repair F25)
+        n = case["n"]
+        ctx.label("centre_not_representable")
+        ctx.nontrivial(True)
+        idx = np.arange(n)
+        X = ctx.lib(teneva.ind_to_poi, idx.reshape(-1, 1), a, b, n, "cheb")
+        ctx.check(X.shape == (n, 1) and np.all(np.isfinite(X)), "ind_to_poi(cheb): non-finite nodes on a finite box", a=a, b=b, n=n, X=X.ravel().tolist()[:6])
+        x = X[:, 0]
+        u = 4 * max(abs(np.spacing(a)), abs(np.spacing(b)))       # (the end nodes are a rounded sum of two halves: a few ulp, like everywhere in this module)
+        ctx.check(abs(x[0] - b) <= u and abs(x[-1] - a) <= u and np.all(x <= b + u) and np.all(x >= a - u) and np.all(np.diff(x) <= 0), "ind_to_poi(cheb): nodes not inside the box / not from b down to a",
+                  a=a, b=b, nodes=x.tolist()[:6])
+        ref = [float(Fr(b) / 2 + Fr(a) / 2 + (Fr(b) - Fr(a)) / 2 * Fr(math.cos(math.pi * i / (n - 1)))) for i in range(n)]
+        ctx.check(np.allclose(x, ref, rtol=1e-14, atol=0), "ind_to_poi(cheb): nodes differ from the reference formula", got=x.tolist()[:6], ref=ref[:6])
+        back = ctx.lib(teneva.poi_to_ind, X, a, b, n, "cheb")
+        ctx.check(np.array_equal(np.asarray(back).ravel(), idx), "cheb round trip index -> point -> index fails on a box with a non-representable centre", back=np.asarray(back).ravel().tolist())
+        sc = ctx.lib(teneva.poi_scale, X, a, b, "cheb")
+        ctx.check(np.allclose(sc.ravel(), np.cos(np.pi * idx / (n - 1)), atol=1e-12), "poi_scale(cheb) of the nodes is not cos(pi i / (n-1))", got=sc.ravel().tolist()[:6])
+        Xu = ctx.lib(teneva.ind_to_poi, idx.reshape(-1, 1), a, b, n, "uni")
+        ctx.check(np.all(np.isfinite(Xu)) and Xu[0, 0] == a and abs(Xu[-1, 0] - b) <= 4 * abs(np.spacing(b)), "ind_to_poi(uni): end nodes on a huge box", ends=[float(Xu[0, 0]), float(Xu[-1, 0])])
+        return
+    t = case["t"]
+    x = float(Fr(a) + (Fr(b) - Fr(a)) * Fr(t))
+    if case["kind"] == "custom":
+        lo, hi = case["lim"]
+        ctx.label("custom_limits_products_overflow")
+        ctx.nontrivial(True)
+        got = float(np.ravel(ctx.lib(teneva.poi_scale, np.array([x]), a, b, [lo, hi]))[0])
+        tx = (Fr(x) - Fr(a)) / (Fr(b) - Fr(a))
+        ref = float(Fr(lo) + tx * (Fr(hi) - Fr(lo)))
+        if not (abs(got - ref) <= 1e-9 * max(abs(lo), abs(hi), 1.0)):
+            if max(abs(a), abs(b)) * max(abs(lo), abs(hi)) > 1.7e308:
+                ctx.known("poi-scale-custom-limits-product-overflow", f"poi_scale([{x!r}], {a!r}, {b!r}, {[lo, hi]!r}) = {got!r}, affine image {ref!r}")
+            ctx.check(False, "poi_scale(custom limits): not the affine image of the point", got=got, ref=ref, a=a, b=b, x=x)
+        return
+    ctx.label("reciprocal_width_overflows")
+    ctx.nontrivial(True)
+    got = float(np.ravel(ctx.lib(teneva.poi_scale, np.array([x]), a, b, "cheb"))[0])
+    ref = float(2 * (Fr(x) - Fr(a)) / (Fr(b) - Fr(a)) - 1)
+    if not (abs(got - ref) <= 1e-6):
+        if b - a < 1.2e-308:
+            ctx.known("poi-scale-cheb-reciprocal-width-overflow", f"poi_scale([{x!r}], {a!r}, {b!r}, 'cheb') = {got!r}, expected {ref!r}")
+        ctx.check(False, "poi_scale(cheb) on a very narrow box: not the affine image of the point", got=got, ref=ref, a=a, b=b, x=x)
+    gu = float(np.ravel(ctx.lib(teneva.poi_scale, np.array([x]), a, b, "uni"))[0])
+    ctx.check(abs(gu - t) <= 1e-6, "poi_scale(uni) on a very narrow box", got=gu, ref=t)
+
+
 SUBCHECKS = [
     Sub("index_dtypes", prop_dtypes, strategy=dtype_cases, quick=100, thorough=1200),
     Sub("repeat_calls", prop_repeat, strategy=form_cases, quick=60, thorough=600),
@@ -1665,4 +1881,6 @@ SUBCHECKS = [
     Sub("handed_out", prop_handout, strategy=handout_cases, quick=160, thorough=2500),
     Sub("handed_out_small", prop_handout, enumerate=handout_small, exhaustive=True),
     Sub("grid_flat_history", prop_flat_history, strategy=flat_history_cases, quick=60, thorough=800),
+    Sub("extreme_boxes", prop_extreme, strategy=extreme_cases, quick=220, thorough=3000),
+    Sub("range_edge", prop_edge, enumerate=edge_cases, exhaustive=True),
 ]
